@@ -465,5 +465,5 @@ MANIFEST = {
     "level": "Exhaustive static lint of all bootable-image tables of the device database against the code-derived segment model, plus decision of the offset/exclusion logic by "
              "evaluation on small segment lists and order types. Byte-level recovery is not decided.",
     "note": "Trusted: PyYAML, devdb merge model, the evaluator. Not decided: parse with floating segments inside arbitrary binaries.",
-    "technique": "static analysis: database lint against AST-derived class model, abstract evaluation of offset logic, structural routing rules, loop-carried recurrence of the floating offset on symbolic paths",
+    "technique": "static analysis: database lint against AST-derived class model, abstract evaluation of offset logic, structural routing rules, loop-carried recurrence of the floating offset on symbolic paths, padding predicate evaluated on model blocks",
 }
